@@ -91,6 +91,10 @@ func Call(
 	}
 	fn, ok := obj.(*object.Function)
 	if !ok {
+		if obj == nil {
+			// A global that is declared but was never assigned
+			return nil, fmt.Errorf("object is not a function (%q is not set)", functionName)
+		}
 		return nil, fmt.Errorf("object is not a function (got: %s)", obj.Type())
 	}
 
